@@ -5,7 +5,7 @@ N = no-failing-input-found, . = quiet)."""
 import json, os, re, subprocess, sys, hashlib, shutil
 from concurrent.futures import ThreadPoolExecutor
 ENV = dict(os.environ, GOFLAGS="-mod=mod", GOPROXY="off", GOSUMDB="off", GOTOOLCHAIN="local")
-CHECKS = ["C01","C02","C03","C04","C05","C06","C07","C10","C11","C12","C13","C14","C16","C17","C18"]
+CHECKS = ["C%02d" % i for i in range(1, 21)]
 def run_one(name):
     wt = "/tmp/mx-%s" % name
     subprocess.run(["git","-C","/repo","worktree","remove","--force",wt], capture_output=True)
